@@ -80,7 +80,11 @@ pub enum Op {
     GetMove { h: usize, i: u64 },
     /// Rust: take the handle out of slot `h` and consume it with `into_iter()`; after `k` items
     /// drop the handle in slot `alias` (often the only other handle of the same list)
-    IterConsume { h: usize, alias: usize, k: u64 },
+    IterConsume { h: usize, alias: usize, k: u64, #[serde(default)] partial: bool },
+    /// script `for x in l { l = []; n = n + 1 }`: the loop must keep iterating the list it started on
+    ForRebind { h: usize },
+    /// script `let r = a; r += b; r`: `+=` must build a new list, `a` stays as it was
+    PlusAssign { a: usize, b: usize, dst: usize },
     /// script literal `[a, b, c, a, b, c, a, b, c]` (crosses two growth boundaries)
     Lit9 { dst: usize, vals: Vec<MVal> },
     CloneH { src: usize, dst: usize },
@@ -189,9 +193,26 @@ impl SeqModel {
                 }
                 None => Obs::Skipped,
             },
-            Op::IterConsume { h, alias, .. } => match self.lid(*h) {
+            Op::ForRebind { h } => match self.lid(*h) {
+                Some(id) => Obs::Num(self.heap.lists[id].len() as u64),
+                None => Obs::Skipped,
+            },
+            Op::PlusAssign { a, b, dst } => match (self.lid(*a), self.lid(*b)) {
+                (Some(x), Some(y)) => {
+                    let mut v = self.heap.lists[x].clone();
+                    v.extend(self.heap.lists[y].iter().cloned());
+                    let id = self.heap.new_list(v);
+                    self.slots[*dst] = Some(id);
+                    Obs::Unit
+                }
+                _ => Obs::Skipped,
+            },
+            Op::IterConsume { h, alias, k, partial } => match self.lid(*h) {
                 Some(id) => {
-                    let v = self.heap.lists[id].clone();
+                    let mut v = self.heap.lists[id].clone();
+                    if *partial {
+                        v.truncate(*k as usize);
+                    }
                     self.slots[*h] = None;
                     if *alias < self.slots.len() {
                         self.slots[*alias] = None;
